@@ -32,6 +32,8 @@ pub fn catalogue(scale: i64) -> Vec<Win> {
   ];
   // the two hard-coded lunar reform periods and the switch of the astronomical regimes
   v.push(((8, 11, 1), 300 * scale));
+  // AD 10-22: lunar months run one lunation early (first-month offset 1); the civil->lunar search walks forward here only
+  v.push(((10, 5, 1), 4600));
   v.push(((23, 11, 1), 200 * scale));
   v.push(((236, 11, 1), 200 * scale));
   v.push(((239, 11, 1), 200 * scale));
